@@ -31,6 +31,36 @@ let handlers : (string * (string list -> string -> verdict)) list = [
       let spec = (call = ['*']) || (call <> [] && L.mem (string_of_chars act) ents) in
       { model = bool_s m; spec_ok = Some (impl = bool_s spec); nontrivial = L.length ents > 1 }
     | _ -> failwith "args");
+  "value_dec", (fun args impl -> match args with
+    | [top; ms; whole] ->
+      let parse_m (i : int) (m : string) : ValueDec.member * string =
+        (match S.split_on_char ':' m with
+         | [k; kind; str; raw] ->
+           let v = (match kind with
+             | "n" -> ValueDec.JNull | "s" -> ValueDec.JStr (chars_of_string (unhex str))
+             | "t" -> ValueDec.JBool true | "f" -> ValueDec.JBool false | "d" -> ValueDec.JNum
+             | "o" -> ValueDec.JObj | "a" -> ValueDec.JArr | _ -> failwith "kind") in
+           (((chars_of_string (unhex k), v), nat_of_int i), raw)
+         | _ -> failwith "member") in
+      let pm = L.mapi parse_m (if ms = "" then [] else S.split_on_char ',' ms) in
+      let raw_of id = snd (L.nth pm (int_of_nat id)) in
+      let t = (match top with "O" -> ValueDec.TObj (L.map fst pm) | "A" -> ValueDec.TArr | _ -> ValueDec.TOther) in
+      let hx l = hex (string_of_chars l) in
+      let m = (match ValueDec.decode t with
+        | ValueDec.OPrimTop -> "prim||" ^ whole ^ "|"
+        | ValueDec.OPrimData id -> "prim||" ^ raw_of id ^ "|" ^ raw_of id
+        | ValueDec.OData id -> "data||" ^ whole ^ "|" ^ raw_of id
+        | ValueDec.ORef r -> "ref|" ^ hx r ^ "|" ^ whole ^ "|"
+        | ValueDec.OSoft r -> "soft|" ^ hx r ^ "|" ^ whole ^ "|"
+        | ValueDec.ODelete -> "delete||" ^ whole ^ "|"
+        | ValueDec.OErr e -> "E:" ^ (match e with
+            | ValueDec.EJson -> "json" | ValueDec.EEmptyRid -> "emptyrid" | ValueDec.EAmbiguous -> "ambiguous"
+            | ValueDec.EInvalidRid -> "invalidrid" | ValueDec.EUnknownAction -> "unknownaction"
+            | ValueDec.EObjectNotAllowed -> "objectnotallowed" | ValueDec.EArrayNotAllowed -> "arraynotallowed")) in
+      (* spec on the implementation's own answer: an accepted object names exactly one of rid / action / data among
+         its effective members, and a reference's rid is the last string given for rid *)
+      { model = m; spec_ok = None; nontrivial = L.length pm > 1 }
+    | _ -> failwith "args");
   "valid_rid", (fun args impl -> match args with
     | [rid; aq] ->
       let m = Rid.is_valid_rid (chars_of_string (unhex rid)) (aq = "1") in
